@@ -32,7 +32,8 @@ def main():
     known = json.load(open(os.path.join(ROOT, 'known_findings.json')))
     known_list = [(f['property'], f['sig']) for f in known.get('findings', [])]
     known_arg = ','.join('%s:%s' % k for k in known_list)
-    os.makedirs(os.path.join(ROOT, 'evidence'), exist_ok=True)
+    evdir = os.environ.get('VERIF_EVIDENCE_DIR') or os.path.join(ROOT, 'evidence')   # selftests point this elsewhere
+    os.makedirs(evdir, exist_ok=True)
     os.makedirs(os.path.join(ROOT, 'replays'), exist_ok=True)
     os.makedirs(os.path.join(ROOT, 'build', 'tmp'), exist_ok=True)
     summaries = []
@@ -143,7 +144,7 @@ def main():
         print('WARNING: probes stuck at zero in this run:', ', '.join(zero))
     ev = {'property_id': pid, 'tier': tier, 'seed': seed, 'level': spec['level'], 'coverage': cov,
           'assumptions': COMMON_ASSUMPTIONS + spec.get('assumptions', []), 'wall_s': round(wall, 2), 'violations': nviol}
-    with open(os.path.join(ROOT, 'evidence', pid + '.json'), 'w') as f:
+    with open(os.path.join(evdir, pid + '.json'), 'w') as f:
         json.dump(ev, f, indent=1)
     seen = set()
     for l in known_lines:
